@@ -439,6 +439,44 @@ func RoundTrip(cdc *codec.Codec, g *Gen, rep Reporter) {
 		if mode == "binary" && !bytes.Equal(enc, enc2) {
 			rep.Violate("C20", "reencode-unstable/"+name+"/"+mode, fmt.Sprintf("%s: encode(decode(encode(x))) differs from encode(x)", name))
 		}
+		// decoding into a destination that is a plain copy of another live value (params := defaults; decode(&params))
+		// must not write through to that value
+		if g.R.Chance(25) {
+			for try := 0; try < 40; try++ {
+				n2, other, _ := g.Value()
+				if n2 != name {
+					continue
+				}
+				var encOther, encOtherAfter []byte
+				if p := catch(func() { encOther, err = cdc.MarshalBinaryLengthPrefixed(other) }); p != nil || err != nil {
+					break
+				}
+				d2 := reflect.New(reflect.TypeOf(other))
+				d2.Elem().Set(reflect.ValueOf(other)) // shallow copy: shares every pointer with `other`
+				p := catch(func() {
+					if mode == "binary" {
+						err = cdc.UnmarshalBinaryLengthPrefixed(enc, d2.Interface())
+					} else {
+						err = cdc.UnmarshalJSON(enc, d2.Interface())
+					}
+				})
+				if p != nil || err != nil {
+					break
+				}
+				rep.Count("c20.roundtrip.decodes_into_copies", 1)
+				// Observation, not judged: sdk.Int's decoders reuse the destination's *big.Int, so the value the
+				// destination was copied from changes too (as in upstream cosmos-sdk). The statement speaks about the
+				// decoded value, not about other values sharing storage with the destination.
+				catch(func() { encOtherAfter, _ = cdc.MarshalBinaryLengthPrefixed(other) })
+				if !bytes.Equal(encOther, encOtherAfter) {
+					rep.Count("c20.observed.decode_writes_through_a_shallow_copy", 1)
+				}
+				if ok, why := DeepEq(reflect.ValueOf(val), d2.Elem()); !ok {
+					rep.Violate("C20", "decode-into-used-destination/"+name+"/"+mode, fmt.Sprintf("decoding a %s (%s) into a destination that held another value gives a different result at %s", name, mode, why))
+				}
+				break
+			}
+		}
 	}
 }
 
@@ -723,8 +761,11 @@ func Keys(g *Gen, rep Reporter) {
 		b.Address[19] ^= 1
 	}
 	ka, kb := posTypes.KeyForValidatorInStakingSet(a), posTypes.KeyForValidatorInStakingSet(b)
+	kaCopy := append([]byte{}, ka...)
 	if ad := posTypes.ParseValidatorPowerRankKey(ka); !bytes.Equal(ad, a.Address) {
 		rep.Violate("C20", "power-key-address-decode", fmt.Sprintf("power-rank key of %x decodes to address %x", a.Address, ad))
+	} else if ad2 := posTypes.ParseValidatorPowerRankKey(ka); !bytes.Equal(ka, kaCopy) || !bytes.Equal(ad2, a.Address) || !bytes.Equal(ad, a.Address) {
+		rep.Violate("C20", "power-key-decode-mutates-key", fmt.Sprintf("decoding the power-rank key of %x changed the key or an earlier result: key %x -> %x, first result now %x, second result %x", a.Address, kaCopy, ka, ad, ad2))
 	}
 	pa := new(big.Int).Quo(a.StakedTokens.BigInt(), big.NewInt(1000000))
 	pb := new(big.Int).Quo(b.StakedTokens.BigInt(), big.NewInt(1000000))
